@@ -5,10 +5,14 @@
 package c08
 
 import (
+	"bufio"
+	"bytes"
 	"errors"
 	"fmt"
 	"io"
+	"strings"
 	"testing"
+	"testing/iotest"
 
 	"pgregory.net/rapid"
 	"verif/internal/gen"
@@ -122,6 +126,127 @@ func one(in []byte, sched []int, eofData bool, fault int, errIdx int, extra int)
 		return fmt.Errorf("fault after %d bytes: %v", k, err)
 	}
 	return nil
+}
+
+// stdReader builds one of the standard library's readers over in[k:] (kind
+// 1-8), some of them positioned at k by consuming or seeking in a reader over
+// the whole input: a parser that looks at a reader's type or size must still
+// see exactly the unread bytes.
+func stdReader(kind int, in []byte, k int) io.Reader {
+	switch kind {
+	case 1:
+		return bytes.NewReader(in[k:])
+	case 2:
+		r := bytes.NewReader(in)
+		io.CopyN(io.Discard, r, int64(k))
+		return r
+	case 3:
+		r := strings.NewReader(string(in))
+		r.Seek(int64(k), io.SeekStart)
+		return r
+	case 4:
+		return io.NewSectionReader(bytes.NewReader(in), int64(k), int64(len(in)-k))
+	case 5:
+		return bufio.NewReaderSize(bytes.NewReader(in[k:]), 16)
+	case 6:
+		return iotest.DataErrReader(bytes.NewReader(in[k:]))
+	case 7:
+		return iotest.HalfReader(bytes.NewReader(in[k:]))
+	default:
+		return iotest.OneByteReader(strings.NewReader(string(in[k:])))
+	}
+}
+
+func propStdReader(c harness.Case) harness.Result {
+	in, k := c.In, c.I["skip"]
+	if k > len(in) {
+		k = len(in)
+	}
+	res := harness.Result{Nontrivial: len(in)-k >= 2, Labels: []string{fmt.Sprintf("reader_kind=%d", c.I["reader"])}}
+	if k > 0 {
+		res.Labels = append(res.Labels, "reader_positioned_past_the_start")
+	}
+	p := cm.NewBlockParser(stdReader(c.I["reader"], in, k))
+	refs := make(cm.ReferenceMap)
+	var blocks []*cm.RootBlock
+	var term error
+	for {
+		b, e := p.NextBlock()
+		if e != nil {
+			term = e
+			break
+		}
+		blocks = append(blocks, b)
+		refs.Extract(b.Source, b.AsNode())
+		if len(blocks) > len(in)+2 {
+			res.Err = fmt.Errorf("more blocks than bytes")
+			return res
+		}
+	}
+	if term != io.EOF {
+		res.Err = fmt.Errorf("terminal error %v, want io.EOF", term)
+		return res
+	}
+	for i := 0; i < 2; i++ {
+		if b, e := p.NextBlock(); b != nil || e != io.EOF {
+			res.Err = fmt.Errorf("call %d after the end returned (%v, %v), want (nil, io.EOF)", i+1, b != nil, e)
+			return res
+		}
+	}
+	ip := &cm.InlineParser{ReferenceMatcher: refs}
+	for _, b := range blocks {
+		ip.Rewrite(b)
+	}
+	res.Err = compare(blocks, refs, in[k:])
+	return res
+}
+
+func genStdReader(t *rapid.T) harness.Case {
+	var c harness.Case
+	if rapid.IntRange(0, 9).Draw(t, "big") == 0 {
+		c.In = gen.LongDoc(9000, 30000).Draw(t, "in")
+	} else {
+		c.In = gen.Doc().Draw(t, "in")
+	}
+	c.SetI("reader", rapid.IntRange(1, 8).Draw(t, "reader"))
+	if rapid.Bool().Draw(t, "positioned") {
+		c.SetI("skip", rapid.IntRange(0, len(c.In)).Draw(t, "skip"))
+	}
+	return c
+}
+
+// genLargeBlock: one root block of 300 KB to just under the 1 MiB limit of the
+// streaming parser (code, HTML or quoted lines: kinds whose parsing is linear),
+// between two small blocks.
+func genLargeBlock(t *rapid.T) harness.Case {
+	size := []int{300000, 345000, 352000, 400000, 524288, 700000, 1000000, 1040000}[rapid.IntRange(0, 7).Draw(t, "size")]
+	var sb strings.Builder
+	sb.WriteString("first\n\n")
+	switch rapid.IntRange(0, 3).Draw(t, "kind") {
+	case 0:
+		sb.WriteString("```\n" + strings.Repeat("code line here\n", size/15) + "```\n")
+	case 1:
+		sb.WriteString("<div>\n" + strings.Repeat("<b>x</b> text\n", size/14))
+	case 2:
+		sb.WriteString("> " + strings.Repeat("quoted line\n> ", size/14) + "end\n")
+	default:
+		sb.WriteString(strings.Repeat("    indented code\n", size/18))
+	}
+	sb.WriteString("\nlast [r]\n\n[r]: /u\n")
+	c := harness.Case{In: []byte(sb.String())}
+	switch rapid.IntRange(0, 2).Draw(t, "lsched") {
+	case 1:
+		sz := []int{8192, 4096, 65536, 1000}[rapid.IntRange(0, 3).Draw(t, "chunk")]
+		var s []int
+		for n := 0; n < len(c.In); n += sz {
+			s = append(s, sz)
+		}
+		c.SetL("sched", s)
+	case 2:
+		c.SetI("fault", rapid.IntRange(0, len(c.In)).Draw(t, "fk"))
+		c.SetI("err", rapid.IntRange(0, len(errValues)-1).Draw(t, "err"))
+	}
+	return c
 }
 
 func cutsInteresting(in []byte, sched []int) bool {
@@ -271,6 +396,8 @@ func TestProperty(t *testing.T) {
 		{Name: "schedule_fault", Quick: 50000, Thorough: 600000, Gen: genCase(false), Prop: prop, Rule: rule},
 		{Name: "long", Quick: 150, Thorough: 2000, Gen: genCase(true), Prop: prop, Rule: "long mode 6-30 KB (buffer grows past the 8 KiB window): " + rule},
 		{Name: "long_documents", Quick: 120, Thorough: 1500, Gen: genLongDoc, Prop: prop, Rule: "documents of 20-120 KB made of hundreds of root blocks (generated pieces repeated in turn), read as much at a time as the parser asks for or in fixed chunks around 8 KiB, all blocks held until the end and compared then: " + rule},
+		{Name: "std_readers", Quick: 12000, Thorough: 150000, Gen: genStdReader, Prop: propStdReader, Rule: "the input delivered by the standard library's readers (bytes.Reader, strings.Reader, io.SectionReader, bufio.Reader, iotest.DataErrReader / HalfReader / OneByteReader), half of the time positioned k bytes past the start by earlier reads or a Seek: the blocks must be those of Parse(input[k:]) and the end io.EOF, persistently"},
+		{Name: "large_blocks", Quick: 8, Thorough: 60, Gen: genLargeBlock, Prop: prop, Rule: "one root block of 300 KB to just under the streaming parser's 1 MiB limit (fenced or indented code, HTML block, quote) between small blocks, under full reads, fixed chunks or a fault: " + rule},
 		{Name: "enumerate", Quick: 600, Thorough: 8000, Gen: genSmall, Prop: propEnum, Rule: "inputs truncated to <= 48 bytes; for each, EVERY fault point k in 0..len (single read and one-byte reads, error with and without data) and EVERY two-cut schedule is run; non-trivial = input of >= 4 bytes"},
 	}})
 }
